@@ -14,6 +14,7 @@ import WuffsVerif.Model.Png.Spec
 import WuffsVerif.Proof.HashLoops
 import WuffsVerif.Proof.PngEncode
 import WuffsVerif.Proof.PngSafe
+import WuffsVerif.Proof.PngPixels
 
 namespace WuffsVerif.Props.C19
 open WuffsVerif.Hash WuffsVerif.Png WuffsVerif.Png.Uncomp WuffsVerif.Gen.C19
@@ -121,13 +122,19 @@ theorem png_roundtrip (e : Enc) (pix : Array UInt8) (width height stride : Nat) 
   have h := encode_decodes e pix width height stride depth colorType he.1 he.2 hw hw2 hh hh2 hd hc hpix
   exact ⟨h.1, h.2.2.2⟩
 
-/-- what `imageBytes` is, pointwise: row `y`, pixel `x` contributes `pix[y*stride + k*x ..+n]`. -/
-theorem imageBytes_row (pix : Array UInt8) (n k width stride rows y : Nat) :
-    imageBytes pix n k width stride (rows + 1) y
-      = pixBytes pix n k width (y * stride) ++ imageBytes pix n k width stride rows (y + 1) := rfl
-
-theorem pixBytes_pixel (pix : Array UInt8) (n k cnt off : Nat) :
-    pixBytes pix n k (cnt + 1) off = slice pix off (off + n) ++ pixBytes pix n k cnt (off + k) := rfl
+/-- What the decoded `pixels` of `png_roundtrip` are, pointwise: `height` rows of `width * n` bytes,
+and byte `i` of pixel `x` of row `y` is the input byte `pix[y*stride + k*x + i]` (for RGBX, `n < k`:
+the X byte(s) of every pixel are dropped). -/
+theorem decoded_pixels_pointwise (pix : Array UInt8) (n k width stride height : Nat) (hnk : n ≤ k)
+    (hpix : ∀ y, y < height → y * stride + k * width ≤ pix.size) :
+    (imageBytes pix n k width stride height 0).length = height * (width * n) ∧
+    ∀ y x i, y < height → x < width → i < n →
+      (imageBytes pix n k width stride height 0)[(y * width + x) * n + i]?
+        = some (rd pix (y * stride + k * x + i)) := by
+  refine ⟨length_imageBytes pix n k width stride hnk height 0 (fun y' _ h => hpix y' (by omega)), ?_⟩
+  intro y x i hy hx hi
+  have := imageBytes_get pix n k width stride hnk height 0 (fun y' _ h => hpix y' (by omega)) y x i hy hx hi
+  simpa using this
 
 /-- non-vacuity: the hypotheses hold for a fresh encoder and a 2×2 gray image, and the theorem then
 yields a successful decode of that image. -/
